@@ -49,6 +49,9 @@ func (s *Srv) start() {
 
 func (s *Srv) API() API { return s.api }
 
+// Mon returns the transaction monitor of the running server instance.
+func (s *Srv) Mon() *Monitor { return monitorFor(s.N.VerifFsState()) }
+
 // NewRPCClient opens a fresh connection (its own pipe and server loop) to the running server.
 func (s *Srv) NewRPCClient() API {
 	cs, cc := net.Pipe()
@@ -79,12 +82,14 @@ func (s *Srv) closeRPC() {
 func (s *Srv) Stop() {
 	s.closeRPC()
 	s.N.ShutdownNfs()
+	dropMonitor(s.N.VerifFsState())
 }
 
 // StopCrash stops the shrinker after its current transaction, then shuts down (nfs.Crash).
 func (s *Srv) StopCrash() {
 	s.closeRPC()
 	s.N.Crash()
+	dropMonitor(s.N.VerifFsState())
 }
 
 // Restart = clean shutdown + start on the same disk.
